@@ -443,3 +443,97 @@ def rule_stepinit(ctx: Ctx) -> List[Ob]:
     obs.append(ob("STEPINIT", "maximum step is min(user cap, smallest finite bound ratio)", g, rets[0] if rets else g.node, ok2,
                   f"{short(rets[0].value) if rets else 'missing'}", construct="return min(max_steplength, nanmin(finite ratios))"))
     return obs
+
+
+@rule("PGFORM", min_instances=2)
+def rule_pgform(ctx: Ctx) -> List[Ob]:
+    """the stopping quantities are the documented ones: projgr(x, g, lb, ub) = max |P(x - g) - x| with P the
+    projection onto [lb, ub] (so that 'projected gradient <= gtol' means what C04 says), and the relative
+    reduction test is (f_old - f) / max(|f_old|, |f|, 1) < ftol"""
+    obs: List[Ob] = []
+    f = ctx.repo.func("base.projgr")
+    rets = [r for r in walk_no_nested(f.node) if isinstance(r, ast.Return)]
+    need(len(rets) == 1, "PGFORM: projgr has more than one return")
+    e = rets[0].value
+    ps = f.params
+    ok, why = False, f"returns {short(e)}"
+    # peel max / abs
+    if isinstance(e, ast.Call) and dotted(e.func) in ("np.max", "np.amax", "max", "np.linalg.norm") and e.args:
+        inf_norm = dotted(e.func) != "np.linalg.norm" or (len(e.args) > 1 and src(e.args[1]) in ("np.inf", "inf"))
+        a = e.args[0]
+        if dotted(e.func) == "np.linalg.norm" and inf_norm:
+            inner = a
+        elif isinstance(a, ast.Call) and dotted(a.func) in ("np.abs", "abs", "np.absolute") and a.args:
+            inner = a.args[0]
+        else:
+            inner = None
+        if inner is not None and isinstance(inner, ast.BinOp) and isinstance(inner.op, ast.Sub):
+            for proj, pt in ((inner.left, inner.right), (inner.right, inner.left)):
+                if src(pt) == ps[0] and isinstance(proj, ast.Call) and (dotted(proj.func) in ("np.clip", "clip2bounds")) and len(proj.args) == 3 \
+                        and src(proj.args[1]) == ps[2] and src(proj.args[2]) == ps[3] and isinstance(proj.args[0], ast.BinOp) \
+                        and isinstance(proj.args[0].op, ast.Sub) and src(proj.args[0].left) == ps[0] and src(proj.args[0].right) == ps[1]:
+                    ok = inf_norm
+    obs.append(ob("PGFORM", "projgr is the infinity norm of P(x - g) - x", f, rets[0], ok, why,
+                  construct="projgr: max(abs(clip(x - grad, lb, ub) - x))"))
+    g = ctx.repo.func("main.is_f0_min_change_reached")
+    f0, fo, ft = g.params[0], g.params[1], g.params[2]
+    tests = [s for s in g.node.body if isinstance(s, ast.If)]
+    need(len(tests) >= 1, "PGFORM: relative-reduction test not found")
+    t = tests[0].test
+    ok2, why2 = False, f"test `{short(t)}`"
+    if isinstance(t, ast.Compare) and len(t.ops) == 1 and isinstance(t.ops[0], (ast.Lt, ast.LtE)) and src(t.comparators[0]) == ft:
+        a, b = sp.Symbol("f_new", real=True), sp.Symbol("f_old", real=True)
+        K = Kernel(bindings={f0: Sc(a), fo: Sc(b)}, conds={}, maps={})
+        v = K.ev(t.left)
+        args = sorted({sp.Abs(a), sp.Abs(b), sp.Integer(1)}, key=sp.default_sort_key)
+        ref = Sc((b - a) / sp.Function("max")(*args))
+        ok2, w = equal(v, ref)
+        why2 = f"{short(t.left)} = {v.e}" + ("" if ok2 else f"; reference {ref.e}")
+    obs.append(ob("PGFORM", "relative reduction is (f_old - f) / max(|f_old|, |f|, 1), compared with ftol", g, tests[0], bool(ok2), why2,
+                  construct="is_f0_min_change_reached: (f0_old - f0) / max(|f0_old|, |f0|, 1) < ftol"))
+    return obs
+
+
+@rule("SUBFORM", min_instances=3)
+def rule_subform(ctx: Ctx) -> List[Ob]:
+    """subspace minimisation (direct primal method, Byrd-Lu-Nocedal section 5.1): reduced gradient
+    r = g + theta (x_c - x) - W M c, step dHat = -(1/theta) (rHat + (1/theta) Z^T W v), returned point
+    x_c + alpha* Z dHat"""
+    f = ctx.repo.func("subspacemin.subspace_minimization")
+    obs: List[Ob] = []
+    theta = sp.Symbol("theta", positive=True)
+    for use in (True, False):
+        tag = "with memory" if use else "empty memory"
+        K = Kernel(bindings={"mats.theta": Sc(theta), "grad": Vec({"g": 1}), "xc": Vec({"xc": 1}), "x": Vec({"x": 1}),
+                             "c": Vec({"c": 1}), "mats.invMfactors": Sc(0)},
+                   conds={"mats.use_factor": use}, maps={"bmv": "M"}, recv_maps={"mats.W": "W"})
+        sl = []
+        for s in f.node.body:
+            tg = set(_top_targets(s))
+            if tg & {"r", "invThet"}:
+                sl.append(s)
+            elif isinstance(s, ast.If) and src(s.test) == "mats.use_factor" and any("r" in _top_targets(x) for x in s.body):
+                sl.append(s)
+        need(len(sl) >= 2, "SUBFORM: reduced-gradient statements not found")
+        K.run(sl)
+        ref = Vec({"g": 1, "xc": theta, "x": -theta, **({"W(M(c))": -1} if use else {})})
+        ok, why = equal(K.env["r"], ref)
+        obs.append(ob("SUBFORM", f"reduced gradient r = g + theta (xc - x) - W M c ({tag})", f, sl[0], ok,
+                      f"r = {K.env['r']}" + ("" if ok else f"; reference {ref}; {why}"), construct=f"r [{tag}]"))
+    K = Kernel(bindings={"rHat": Vec({"rHat": 1}), "v": Vec({"v": 1}), "mats.theta": Sc(theta)}, conds={}, maps={},
+               recv_maps={"np.transpose(WTZ)": "ZTW", "WTZ.T": "ZTW"})
+    sl = [s for s in f.node.body if set(_top_targets(s)) & {"invThet", "dHat"}]
+    need(len(sl) >= 2, "SUBFORM: dHat / invThet statements not found")
+    K.run(sl)
+    ref = Vec({"rHat": -1 / theta, "ZTW(v)": -1 / theta ** 2})
+    ok, why = equal(K.env["dHat"], ref)
+    obs.append(ob("SUBFORM", "subspace step dHat = -(1/theta)(rHat + (1/theta) Z^T W v)", f, sl[-1], ok,
+                  f"dHat = {K.env['dHat']}" + ("" if ok else f"; reference {ref}; {why}"), construct="dHat"))
+    # v enters through W^T Z rHat
+    vdef = [s for s in f.node.body if _top_targets(s) == ["v"]]
+    okv = bool(vdef) and src(vdef[0].value).replace(" ", "") in ("WTZ.dot(rHat)", "WTZ@rHat")
+    wdef = [s for s in f.node.body if _top_targets(s) == ["WTZ"]]
+    okw = bool(wdef) and src(wdef[0].value).replace(" ", "") in ("Z.T.dot(mats.W).T", "(Z.T@mats.W).T", "mats.W.T@Z", "mats.W.T.dot(Z)")
+    obs.append(ob("SUBFORM", "the right-hand side of the reduced system is W^T Z rHat", f, vdef[0] if vdef else f.node, okv and okw,
+                  f"v = {short(vdef[0].value) if vdef else '?'}; WTZ = {short(wdef[0].value) if wdef else '?'}", construct="v = (W^T Z) rHat"))
+    return obs
